@@ -10,6 +10,8 @@ TRUST = ("TLC verdicts are exhaustive only inside the stated bounds; the Rust ha
 CLAIMED = {
  "C04": dict(engine="ErrorAlgebra", design_ref="4.1, 5/C04", technique="TLA+ spec (ErrorAlgebra.tla) model-checked with TLC; every transition replayed on real darling::Error; recorded real histories trace-validated (Trace_ErrorAlgebra.tla)",
    text="The algebra (count, flatten order and paths, idempotence, Display, one diagnostic per leaf) is checked by TLC as invariants over every value the builder machine reaches within bounds; every (state, operation) transition TLC explored is executed on real darling::Error values and all public observations compared; random real histories beyond the bounds are accepted as behaviours of the spec with all laws as invariants."),
+ "C05": dict(engine="Accumulator", design_ref="4.2, 5/C05", technique="TLA+ spec (Accumulator.tla) model-checked with TLC over all bounded histories; each history replayed on a real Accumulator; recorded real histories trace-validated (Trace_Accumulator.tla)",
+   text="All histories over the twelve operations up to the bound are enumerated by TLC with the property's clauses (Ok iff nothing recorded, recording order, handle/checkpoint results, drop bomb with lost-count, no second panic while unwinding) as invariants over the history; each history is then executed call by call on a real accumulator and every result compared; random real histories beyond the bound are accepted as behaviours of the spec."),
 }
 
 NOT_YET = "check not built yet (planned, see DESIGN.md section 5)"
